@@ -679,8 +679,185 @@ fn iph_ops() -> Ops<IphW> {
     }
 }
 
+// ---- link/net types (extend-c08a) ----
+fn opt_str<T: std::fmt::Display>(o: Option<T>) -> String {
+    o.map(|v| v.to_string()).unwrap_or("-".to_string())
+}
+/// ptype(0..3),ether_type|-,es,scb,an,short_len,packet_nr,sci|-
+fn macsec_canon(h: &MacsecHeader) -> String {
+    let (p, et) = match h.ptype {
+        MacsecPType::Unmodified(e) => (0, e.0.to_string()),
+        MacsecPType::Modified => (1, "-".to_string()),
+        MacsecPType::Encrypted => (2, "-".to_string()),
+        MacsecPType::EncryptedUnmodified => (3, "-".to_string()),
+    };
+    format!(
+        "{},{},{},{},{},{},{},{}",
+        p,
+        et,
+        h.endstation_id as u8,
+        h.scb as u8,
+        h.an.value(),
+        h.short_len.value(),
+        h.packet_nr,
+        opt_str(h.sci)
+    )
+}
+fn macsec_value(a: &[&str]) -> String {
+    let p = |i: usize| -> u128 { a[i].parse().unwrap() };
+    let ptype = match a[0] {
+        "0" => {
+            if p(1) > 65535 {
+                return "noval".to_string();
+            }
+            MacsecPType::Unmodified(EtherType(p(1) as u16))
+        }
+        "1" => MacsecPType::Modified,
+        "2" => MacsecPType::Encrypted,
+        _ => MacsecPType::EncryptedUnmodified,
+    };
+    if p(4) > 255 || p(5) > 255 || p(6) > u32::MAX as u128 {
+        return "noval".to_string();
+    }
+    let sci = if a[7] == "-" {
+        None
+    } else {
+        if p(7) > u64::MAX as u128 {
+            return "noval".to_string();
+        }
+        Some(p(7) as u64)
+    };
+    let (Ok(an), Ok(sl)) = (MacsecAn::try_new(p(4) as u8), MacsecShortLen::try_from_u8(p(5) as u8)) else {
+        return "noval".to_string();
+    };
+    let h = MacsecHeader {
+        ptype,
+        endstation_id: a[2] == "1",
+        scb: a[3] == "1",
+        an,
+        short_len: sl,
+        packet_nr: p(6) as u32,
+        sci,
+    };
+    let mut ops = macsec_ops();
+    ops.canon = Some(macsec_canon);
+    value_case(&ops, &h, &unhex(a[8]))
+}
+/// next_header,spi,sequence_number,raw_icv hex
+fn auth_canon(h: &IpAuthHeader) -> String {
+    format!("{},{},{},{}", h.next_header.0, h.spi, h.sequence_number, hex(h.raw_icv()))
+}
+fn auth_ops_c() -> Ops<IpAuthHeader> {
+    let mut ops = auth_ops();
+    ops.canon = Some(auth_canon);
+    ops
+}
+/// v auth <nh> <spi> <seq> <icv> <stale|-> <trail>: new(.., stale) then set_raw_icv(icv)
+fn auth_value(a: &[&str]) -> String {
+    let p = |i: usize| -> u64 { a[i].parse().unwrap() };
+    if p(0) > 255 || p(1) > u32::MAX as u64 || p(2) > u32::MAX as u64 {
+        return "noval".to_string();
+    }
+    let icv = unhex(a[3]);
+    let first = if a[4] == "-" { icv.clone() } else { unhex(a[4]) };
+    let Ok(mut h) = IpAuthHeader::new(IpNumber(p(0) as u8), p(1) as u32, p(2) as u32, &first) else {
+        return "noval".to_string();
+    };
+    if a[4] != "-" && h.set_raw_icv(&icv).is_err() {
+        return "noval".to_string();
+    }
+    value_case(&auth_ops_c(), &h, &unhex(a[5]))
+}
+/// next_header,payload hex
+fn rawext_canon(h: &Ipv6RawExtHeader) -> String {
+    format!("{},{}", h.next_header.0, hex(h.payload()))
+}
+fn rawext_ops_c() -> Ops<Ipv6RawExtHeader> {
+    let mut ops = rawext_ops();
+    ops.canon = Some(rawext_canon);
+    ops
+}
+/// v rawext <nh> <payload> <stale|-> <trail>: new_raw(.., stale) then set_payload(payload)
+fn rawext_value(a: &[&str]) -> String {
+    let p = |i: usize| -> u64 { a[i].parse().unwrap() };
+    if p(0) > 255 {
+        return "noval".to_string();
+    }
+    let pl = unhex(a[1]);
+    let first = if a[2] == "-" { pl.clone() } else { unhex(a[2]) };
+    let Ok(mut h) = Ipv6RawExtHeader::new_raw(IpNumber(p(0) as u8), &first) else {
+        return "noval".to_string();
+    };
+    if a[2] != "-" && h.set_payload(&pl).is_err() {
+        return "noval".to_string();
+    }
+    value_case(&rawext_ops_c(), &h, &unhex(a[3]))
+}
+/// traffic_class,flow_label,payload_length,next_header,hop_limit,src hex,dst hex
+fn ipv6_canon(h: &Ipv6Header) -> String {
+    format!(
+        "{},{},{},{},{},{},{}",
+        h.traffic_class,
+        h.flow_label.value(),
+        h.payload_length,
+        h.next_header.0,
+        h.hop_limit,
+        hex(&h.source),
+        hex(&h.destination)
+    )
+}
+fn ipv6_ops_c() -> Ops<Ipv6Header> {
+    let mut ops = ipv6_ops();
+    ops.canon = Some(ipv6_canon);
+    ops
+}
+fn ipv6_value(a: &[&str]) -> String {
+    let p = |i: usize| -> u64 { a[i].parse().unwrap() };
+    let arr16 = |s: &str| -> Option<[u8; 16]> { unhex(s).try_into().ok() };
+    let (Some(src), Some(dst)) = (arr16(a[5]), arr16(a[6])) else {
+        return "noval".to_string();
+    };
+    if p(0) > 255 || p(1) > u32::MAX as u64 || p(2) > 65535 || p(3) > 255 || p(4) > 255 {
+        return "noval".to_string();
+    }
+    let Ok(fl) = Ipv6FlowLabel::try_new(p(1) as u32) else {
+        return "noval".to_string();
+    };
+    let h = Ipv6Header {
+        traffic_class: p(0) as u8,
+        flow_label: fl,
+        payload_length: p(2) as u16,
+        next_header: IpNumber(p(3) as u8),
+        hop_limit: p(4) as u8,
+        source: src,
+        destination: dst,
+    };
+    value_case(&ipv6_ops_c(), &h, &unhex(a[7]))
+}
+fn run_linknet(parts: &[&str]) -> Option<String> {
+    match (parts[0], parts[1]) {
+        ("v", "macsec") => Some(macsec_value(&parts[2..])),
+        ("b", "macsec") => {
+            let mut ops = macsec_ops();
+            ops.canon = Some(macsec_canon);
+            Some(bytes_case(&ops, &unhex(parts[2])))
+        }
+        ("v", "auth") => Some(auth_value(&parts[2..])),
+        ("b", "auth") => Some(bytes_case(&auth_ops_c(), &unhex(parts[2]))),
+        ("v", "rawext") => Some(rawext_value(&parts[2..])),
+        ("b", "rawext") => Some(bytes_case(&rawext_ops_c(), &unhex(parts[2]))),
+        ("v", "ipv6") => Some(ipv6_value(&parts[2..])),
+        ("b", "ipv6") => Some(bytes_case(&ipv6_ops_c(), &unhex(parts[2]))),
+        _ => None,
+    }
+}
+// ---- end extend-c08a ----
+
 fn run(line: &str) -> String {
     let parts: Vec<&str> = line.split_whitespace().collect();
+    if let Some(r) = run_linknet(&parts) {
+        return r; // extend-c08a hook
+    }
     match (parts[0], parts[1]) {
         ("v", "tcp") => tcp_value(&parts[2..]),
         ("v", "ipv4") => ipv4_value(&parts[2..]),
